@@ -134,7 +134,7 @@ def run(ctx, cfg):
 # ---- Mode B (DESIGN §2): concrete box, concrete objective-like prefix of P rounds, k symbolic rounds
 MODEB = {
     "T_HOO": [(15, {}), (40, {})], "HCT": [(15, {}), (31, {"c": 0.1}), (63, {"c": 0.1})], "VHCT": [(7, {}), (15, {"c": 0.1})],
-    "DOO": [(12, {}), (25, {})], "SOO": [(12, {}), (30, {})], "StoSOO": [(12, {}), (30, {"k": 3})], "SequOOL": [(12, {"n": 40}), (20, {"n": 40})],
+    "DOO": [(12, {}), (25, {})], "SOO": [(12, {}), (30, {})], "StoSOO": [(12, {}), (30, {"k": 3})], "SequOOL": [(12, {"n": 40}), (20, {"n": 40}), (9, {"n": 12}), (15, {"n": 20})],
     "StroquOOL": [(10, {"n": 200}), (14, {"n": 200})], "Zooming": [(16, {"nu": 3, "rho": 0.5}), (45, {"nu": 3, "rho": 0.5}), (40, {"nu": 1, "rho": 0.9})],
     "POO": [(10, {"rhomax": 0.9}), (12, {"rhomax": 0.84}), (30, {"rhomax": 0.9}), (13, {"rhomax": 0.95})], "GPO": [(9, {"rhomax": 0.9}), (14, {"rhomax": 0.9}), (48, {"rhomax": 0.5})],
     "PCT": [(9, {"rhomax": 0.9})], "VPCT": [(9, {"rhomax": 0.9})], "VROOM": [(3, {"n": 8, "h_max": 3})],
